@@ -95,6 +95,13 @@ fn registry() -> Vec<CheckDef>
 			case_timeout_ms: 20_000,
 			level_text: "complete enumeration of the finite type matrix (operators, comparisons, unary operators and casts over 18 operand forms, and 13 target types x 18 source operands in 8 contexts, call arities, access operations), one program per cell through the real pipeline, judged against a type-rule table; plus an invariant monitor over the resolved tree of every accepted program",
 		},
+		CheckDef {
+			id: "C02",
+			drive: checks::c02::drive,
+			work: checks::c02::work,
+			case_timeout_ms: 20_000,
+			level_text: "exhaustive enumeration of token sequences (full, and viable-prefix breadth-first from the empty input and from non-initial contexts), character strings and fragment concatenations, the single-fault neighbourhood of grammar-derived programs and corpus files, nesting pumps and all histories of up to three module kinds through one Compiler; every case runs the complete real pipeline in a crash-isolated worker under the invariant: success with IR, or failure with at least one diagnostic",
+		},
 	]
 }
 
